@@ -178,10 +178,10 @@ def parse_parts(status_ct, cr, body, n):
     if cr is not None:
         m = re.match(rb"^bytes (\d+)-(\d+)/(\d+)$", cr)
         if not m:
-            return "Content-Range malformed: %r" % cr
+            return "Content-Range malformed [%r]" % cr
         a, b, tot = int(m.group(1)), int(m.group(2)), int(m.group(3))
         if tot != n:
-            return "Content-Range complete-length %d != %d" % (tot, n)
+            return "Content-Range complete-length wrong [%d != %d]" % (tot, n)
         return [(a, b, body)]
     m = BOUNDARY_RE.match(status_ct or b"")
     if not m:
@@ -203,10 +203,10 @@ def parse_parts(status_ct, cr, body, n):
             return "multipart part without exactly one Content-Range"
         m = re.match(rb"^[Cc]ontent-[Rr]ange: bytes (\d+)-(\d+)/(\d+)$", crs[0])
         if not m:
-            return "part Content-Range malformed: %r" % crs[0]
+            return "part Content-Range malformed [%r]" % crs[0]
         a, b, tot = int(m.group(1)), int(m.group(2)), int(m.group(3))
         if tot != n:
-            return "part Content-Range complete-length %d != %d" % (tot, n)
+            return "part Content-Range complete-length wrong [%d != %d]" % (tot, n)
         if b < a:
             return "part Content-Range last < first"
         pos = end + 4
@@ -250,7 +250,7 @@ def oracle_rng(t, out):
     if not applicable or specs is None:
         # Range must be ignored: status, body and representation headers untouched
         if status != st:
-            return "Range not applicable (method/version/If-Range/unit) but status changed to %d" % status
+            return "Range not applicable (method/version/If-Range/unit) but status changed [to %d]" % status
         if body != rep:
             return "Range not applicable but body changed"
         if cr is not None or cl is not None or oct_ != ct:
@@ -262,25 +262,25 @@ def oracle_rng(t, out):
         if isinstance(parts, str):
             return "206: " + parts
         if cl is None or not cl.isdigit() or int(cl) != len(body):
-            return "206: Content-Length %r != body length %d" % (cl, len(body))
+            return "206: Content-Length differs from body length [%r != %d]" % (cl, len(body))
         if cr is None and len(parts) < 2:
             return "206: multipart with fewer than two parts"
         for a, b, payload in parts:
             if not (0 <= a <= b < n):
-                return "206: part %d-%d outside representation of length %d" % (a, b, n)
+                return "206: part outside the representation [%d-%d, length %d]" % (a, b, n)
             if payload != rep[a:b + 1]:
-                return "206: part %d-%d does not carry the representation's bytes" % (a, b)
+                return "206: part does not carry the representation's bytes [%d-%d]" % (a, b)
         if cr is None and oct_ is not None and ct is not None:
             pass
     elif status == 416:
         if cr != b"bytes */%d" % n:
-            return "416: Content-Range %r" % cr
+            return "416: Content-Range wrong [%r]" % cr
         if body != rep:
             return "416: body changed by http_range"
     elif status == 200:
         pass
     else:
-        return "unexpected status %d" % status
+        return "unexpected status [%d]" % status
     if specs == "junk":
         return None               # not from the grammar: only the structural checks above
     res = [resolve(s, n) for s in specs]
@@ -290,7 +290,7 @@ def oracle_rng(t, out):
         return "valid bytes range-set but Range ignored (200)"
     if status == 416:
         if sat:
-            return "416 although %d-%d is satisfiable" % sat[0]
+            return "416 although a requested range is satisfiable [%d-%d]" % sat[0]
         if maybe:
             return None           # only clamped numbers: documented deviation
         return None
@@ -303,7 +303,7 @@ def oracle_rng(t, out):
     if len(specs) <= 10 or (ascending and len(specs) <= 128):
         for a, b in sat:
             if not any(pa <= a and b <= pb for pa, pb, _ in parts):
-                return "206: satisfiable range %d-%d not contained in any part" % (a, b)
+                return "206: satisfiable range not contained in any part [%d-%d]" % (a, b)
     return None
 
 
@@ -341,10 +341,11 @@ def ref_etag_match(etag, h, weak_ok):
 
 
 def oracle(line, out):
-    """property oracle; the verdict is a class (numbers blanked) so that one defect gives one
-    violation signature — the concrete numbers are in the replay's input"""
+    """property oracle; the verdict is the class of the failure (the " [details]" part of
+    oracle_detail is dropped) so that one defect gives one violation signature — the
+    concrete numbers are in the replay's input and in `check.py --replay`"""
     v = oracle_detail(line, out)
-    return re.sub(r"-?\d+", "N", v) if v else None
+    return v.split(" [")[0] if v else None
 
 
 def oracle_detail(line, out):
@@ -362,14 +363,14 @@ def oracle_detail(line, out):
             return "parse: count mismatch"
         for a, b in prs:
             if not (0 <= a <= b < n):
-                return "http_range_parse: range %d-%d outside [0,%d)" % (a, b, n)
+                return "http_range_parse: range outside the representation [%d-%d, length %d]" % (a, b, n)
         specs = ref_range_specs(b"bytes=" + C.unhx(t[2]))
         if specs in (None, "junk"):
             return None
         res = [resolve(s, n) for s in specs]
         sat = [r for r, over in res if r is not None and not over]
         if not prs and sat:
-            return "http_range_parse: no range although %d-%d is satisfiable" % sat[0]
+            return "http_range_parse: no range although one is satisfiable [%d-%d]" % sat[0]
         if prs and not [r for r, _ in res if r is not None]:
             return "http_range_parse: range produced although nothing is satisfiable"
         allr = [r for r, _ in res if r is not None]
@@ -377,12 +378,12 @@ def oracle_detail(line, out):
         if len(specs) <= 10 or (ascending and len(specs) <= 128):
             for a, b in sat:
                 if not any(pa <= a and b <= pb for pa, pb in prs):
-                    return "http_range_parse: satisfiable %d-%d not covered" % (a, b)
+                    return "http_range_parse: satisfiable range not covered [%d-%d]" % (a, b)
         return None
     if op == "etag":
         exp = ref_etag_match(C.unhx(t[2]), C.unhx(t[3]), t[1] != "0")
         if exp is not None and out != ("1" if exp else "0"):
-            return "http_etag_matches: %s expected for a well-formed entity-tag list" % exp
+            return "http_etag_matches: wrong result for a well-formed entity-tag list [expected %s]" % exp
         return None
     if op == "cond":
         now, meth, hasr = int(t[1]), int(t[2]), t[3] != "0"
@@ -409,7 +410,7 @@ def oracle_detail(line, out):
         if d == -1:
             return None
         if (out == "304") != (d >= lmt):
-            return "If-Modified-Since %d vs mtime %d but result is %s" % (d, lmt, out)
+            return "If-Modified-Since date vs mtime: wrong result %s [date %d, mtime %d]" % (out, d, lmt)
         return None
     if op in ("ims", "dparse"):
         now = int(t[1])
@@ -419,19 +420,19 @@ def oracle_detail(line, out):
             return None
         if op == "dparse":
             if out != str(d):
-                return "well-formed HTTP-date for %d parsed as %s" % (d, out)
+                return "well-formed HTTP-date parsed to a different instant [%d parsed as %s]" % (d, out)
         elif d != -1:
             if (out == "0") != (d >= int(t[2])):
-                return "http_date_if_modified_since: date %d, mtime %s, result %s" % (d, t[2], out)
+                return "http_date_if_modified_since: wrong result [date %d, mtime %s, result %s]" % (d, t[2], out)
         return None
     if op == "dfmt":
         tt = int(t[1])
         if 0 <= tt <= T_MAX:
             if out == "-":
-                return "http_date_time_to_str produced nothing for %d" % tt
+                return "http_date_time_to_str produced nothing [%d]" % tt
             s = C.unhx(out)
             if len(s) != 29 or ref_date(s, NOW) != tt:
-                return "emitted date %r does not parse back to %d" % (s, tt)
+                return "emitted date does not parse back to the same instant [%r, %d]" % (s, tt)
         return None
     if op == "gmt":
         tt = int(t[1])
@@ -440,7 +441,7 @@ def oracle_detail(line, out):
             exp = "%d %d %d %d %d %d %d" % (d.year, d.month, d.day, d.hour, d.minute, d.second,
                                             (d.weekday() + 1) % 7)
             if out != exp:
-                return "gmtime_r(%d) = %s, reference %s" % (tt, out, exp)
+                return "gmtime_r differs from the reference calendar [%d: %s, reference %s]" % (tt, out, exp)
         return None
     if op == "tgm":
         y, m, d, hh, mm, ss = [int(x) for x in t[1:7]]
@@ -448,7 +449,7 @@ def oracle_detail(line, out):
             base = datetime.datetime(y, m, 1)
             exp = int((base - EPOCH).total_seconds()) + (d - 1) * 86400 + hh * 3600 + mm * 60 + ss
             if out != str(exp):
-                return "timegm = %s, reference %d" % (out, exp)
+                return "timegm differs from the reference calendar [%s, reference %d]" % (out, exp)
         return None
     return None
 
